@@ -45,18 +45,26 @@ def check(cx):
             if f.impl_adt == K.LOGGER:
                 continue
             found += 1
-            vs = [x for x in f.calls() if x.callee == want[kind]]
-            good = bool(vs) and any(f.dominates(v.bb, site.bb) for v in vs)
+            good = p.dominated_interproc(f, site.bb, {want[kind]})
             # ... and the validator's error leaves the function: site not reachable from the error arm is implied by `?`
             cx.verdict(good, r1, "%s@%s" % (kind, f.id), site.where(),
                        "%s dominates the logged write" % want[kind].rsplit("::", 1)[-1],
                        "%s writes a row (appends a %s record) without validating constraints first in the same "
                        "function: validation and write are decoupled (e.g. all rows validated before any is written)" % (f.id, kind))
-    # the validators are called only from their DML function
-    for v, owner in ((ins_v, DML + "::insert"), (upd_v, DML + "::update")):
-        for c in K.callers_of(p, v):
-            cx.verdict(c == owner, r1, "caller:%s<-%s" % (v.rsplit("::", 1)[-1], c), p.fn(c).where(), "expected caller",
-                       "%s is now called from %s: validation no longer happens next to the write it guards" % (v, c))
+    # validation is per row: every call of a validator is followed, on every success path, by the logged write
+    # of that row (a validator called ahead of time for a batch of rows cannot see the earlier rows of the batch)
+    writers = {"Insert": set(), "Update": set()}
+    for c, g in K.operation_instantiations(p):
+        kind = g.rsplit("::", 1)[-1]
+        if kind in writers:
+            writers[kind].add(c.fn.id)
+    for v, kind in ((ins_v, "Insert"), (upd_v, "Update")):
+        for site in K.sites(p, v):
+            f = site.fn
+            good = site.term["to"] is not None and p.followed_interproc(f, site.term["to"], writers[kind])
+            cx.verdict(good, r1, "validated-row-is-written:%s@%s" % (kind, f.id), site.where(), "validation is followed by the write of the same row",
+                       "%s validates a row without writing it on every success path: validation and write are decoupled, "
+                       "rows of one statement are checked before earlier rows of the same statement exist" % f.id)
 
     # ---- C07.2 both validators run the three checks and propagate their errors ------------------------
     r2 = cx.rule("C07.2", "SIB: validate_insert_constraints and validate_update_constraints both call the not-null, "
